@@ -93,6 +93,7 @@ type benignParams struct {
 	SrvChain     int  // GM: 0 direct leaf, 1 via intermediate
 	SrvMissing   bool // GMSSL server configured with the signing certificate only
 	VHost        bool // the server holds two identities; the client asks for the second name (server2.sim)
+	Reneg        int  // client's Config.Renegotiation (never / once / freely): no effect on a benign session
 	BigChain     bool // certificate chains padded with unrelated certificates of the same family until the Certificate message exceeds one record (16 KiB)
 	OuterCfg     int  // SrvCertSrc 2: policy fields of the listener configuration: 0 same as the per-connection one, 1 permissive decoy, 2 restrictive decoy
 }
@@ -235,6 +236,7 @@ func drawBenignParams(c *simkit.Choice) benignParams {
 		p.OuterCfg = c.Weighted([]int{1, 2, 2}, simkit.LScen)
 	}
 	p.BigChain = c.Bool(1, 10, simkit.LScen)
+	p.Reneg = c.Weighted([]int{4, 1, 1}, simkit.LScen)
 	return p
 }
 
@@ -461,7 +463,7 @@ func gmOnly(l []uint16) []uint16 {
 
 func (p *benignParams) String() string {
 	return fmt.Sprintf("alpn=%v/%v curves=%v smode=%d cgm=%v peer=%d csuites=%x ssuites=%x prefsrv=%v cver=[%x,%x] sver=[%x,%x] auth=%d ccert=%d cas=%v ssrc=%d csrc=%d tick=%v dyn=%v skey=%d cberr=%d cverify=%d chain=%d missing=%v vhost=%v",
-		p.CProtos, p.SProtos, p.Curves, p.SMode, p.CGM, p.Peer, p.CSuites, p.SSuites, p.PreferServer, p.CMin, p.CMax, p.SMin, p.SMax, p.ClientAuth, p.ClientCert, p.SrvClientCAs, p.SrvCertSrc, p.CliCertSrc, p.Tickets, p.DynOff, p.SrvKey, p.CallbackErr, p.CVerify, p.SrvChain, p.SrvMissing, p.VHost) + fmt.Sprintf(" outer=%d bigchain=%v", p.OuterCfg, p.BigChain)
+		p.CProtos, p.SProtos, p.Curves, p.SMode, p.CGM, p.Peer, p.CSuites, p.SSuites, p.PreferServer, p.CMin, p.CMax, p.SMin, p.SMax, p.ClientAuth, p.ClientCert, p.SrvClientCAs, p.SrvCertSrc, p.CliCertSrc, p.Tickets, p.DynOff, p.SrvKey, p.CallbackErr, p.CVerify, p.SrvChain, p.SrvMissing, p.VHost) + fmt.Sprintf(" outer=%d bigchain=%v reneg=%d", p.OuterCfg, p.BigChain, p.Reneg)
 }
 
 // serverConfig builds the gmtls server configuration.
@@ -672,6 +674,7 @@ func (p *benignParams) clientConfig(s *simkit.Sim, ent *simkit.Stream, res *endR
 	cfg.CipherSuites = p.CSuites
 	cfg.NextProtos = p.CProtos
 	cfg.MinVersion, cfg.MaxVersion = p.CMin, p.CMax
+	cfg.Renegotiation = gmtls.RenegotiationSupport(p.Reneg)
 	cfg.DynamicRecordSizingDisabled = p.DynOff
 	for _, id := range p.Curves {
 		cfg.CurvePreferences = append(cfg.CurvePreferences, gmtls.CurveID(id))
@@ -1050,6 +1053,19 @@ func runTLSBenign(c *simkit.Choice, r *simkit.Rec) {
 		return
 	}
 	for i := range ekmArgs {
+		if p.Reneg != 0 && p.Peer != peerStdClient {
+			// documented: "if the application enables renegotiation via
+			// Config.Renegotiation, this function will return an error"
+			if len(cv.ekm[i]) != 0 {
+				r.Violate("ekm-mismatch", site, "client with renegotiation enabled exported keying material")
+				return
+			}
+			if len(sv.ekm[i]) != ekmArgs[i].n {
+				r.Violate("ekm-mismatch", site, "server exported no keying material")
+				return
+			}
+			continue
+		}
 		if !bytes.Equal(cv.ekm[i], sv.ekm[i]) || len(cv.ekm[i]) != ekmArgs[i].n {
 			r.Violate("ekm-mismatch", site, fmt.Sprintf("ExportKeyingMaterial(%q) differs: client %x server %x", ekmArgs[i].label, cv.ekm[i], sv.ekm[i]))
 			return
